@@ -158,9 +158,14 @@ def mark_guards(body: str) -> str:
     return GUARD_RE.sub(lambda m: f"{GUARD_MARK} {m.group(1)};", body)
 
 
+def xyz_helper_is_plain() -> bool:
+    src = strip_comments(read("src/coordinates.rs"))
+    return re.search(r"fn\s+xyz\s*\(\s*&self\s*\)\s*->\s*\(\s*f64\s*,\s*f64\s*,\s*f64\s*\)\s*\{\s*\(\s*self\.x\s*,\s*self\.y\s*,\s*self\.z\s*\)\s*\}", src) is not None
+
+
 class BodyTranslator:
-    def __init__(self, kind, atoms, params):
-        self.kind, self.atoms, self.params = kind, atoms, params
+    def __init__(self, kind, atoms, params, src=""):
+        self.kind, self.atoms, self.params, self.src = kind, atoms, params, src
         self.names = {}      # rust local name -> Lean Ex text
         self.intnames = {}   # rust local integer name -> Lean Nat text
         self.lets = []
@@ -194,6 +199,11 @@ class BodyTranslator:
                 f = v[5:]
                 if f in self.params:
                     return f"(.var {PARAM_BASE + self.params.index(f)})"
+            if re.fullmatch(r"[A-Z][A-Z0-9_]*", v):
+                # a named constant of the same file: `const NAME: f64 = <literal>;`
+                ms = set(re.findall(r"const\s+" + v + r"\s*:\s*f64\s*=\s*([0-9][0-9_]*(?:\.[0-9_]*)?(?:[eE][+-]?[0-9]+)?)\s*;", self.src))
+                if len(ms) == 1:
+                    return f"(.lit {lean_num(ms.pop())})"
             raise TranslateError(f"{self.kind}: unknown name {v}")
         if k == "cast":
             return f"(.nat {self.nat_expr(e[1])})"
@@ -236,6 +246,17 @@ class BodyTranslator:
             if atom not in self.atoms:
                 raise TranslateError(f"{self.kind}: coordinate of unknown atom field {atom}")
             self.names[name] = f"(.var {3 * self.atoms.index(atom) + AX[ax]})"
+            return
+        m = re.fullmatch(r"let\s*\(\s*(\w+)\s*,\s*(\w+)\s*,\s*(\w+)\s*\)\s*=\s*coordinates\[self\.(\w+)\]\.xyz\(\)", st)
+        if m:
+            # `let (x, y, z) = coordinates[self.a].xyz()` — accepted only if `Point::xyz` is the plain component tuple
+            if not xyz_helper_is_plain():
+                raise TranslateError(f"{self.kind}: Point::xyz() is not `(self.x, self.y, self.z)`")
+            nx, ny, nz, atom = m.groups()
+            if atom not in self.atoms:
+                raise TranslateError(f"{self.kind}: coordinate of unknown atom field {atom}")
+            for name, ax in ((nx, "x"), (ny, "y"), (nz, "z")):
+                self.names[name] = f"(.var {3 * self.atoms.index(atom) + AX[ax]})"
             return
         m = re.fullmatch(r"let\s+(\w+)\s*=\s*self\.exponent\.value", st)
         if m:
@@ -285,7 +306,7 @@ def translate_kind(kind, path, struct, atoms, params):
     sig, body = method_body(src, struct, "add_gradient")
     if re.sub(r"\s+", " ", sig.strip()) != "&self, coordinates: &[Point], gradient: &mut Vec<Vector3D>":
         raise TranslateError(f"{struct}::add_gradient signature changed: {sig!r}")
-    bt = BodyTranslator(kind, atoms, params)
+    bt = BodyTranslator(kind, atoms, params, src)
     for st in mark_guards(body).split(";"):
         bt.statement(st)
     expected = sorted(3 * a + c for a in range(len(atoms)) for c in range(3))
@@ -301,13 +322,15 @@ def gen_grad() -> str:
         bt = translate_kind(kind, path, struct, atoms, params)
         arg = " (nExp : Nat)" if kind == "repulsion" else ""
         out.append(f"/-! ## {struct}::add_gradient ({path}); atoms {atoms} ↦ vars 0.., parameters {params} ↦ vars {PARAM_BASE}.. -/")
-        for vid, name, text in bt.lets:
-            out.append(f"def {kind}_{name}{arg} : Ex := {text}")
+        # definitions are named by position (v0, v1, ... in order of appearance), not by the Rust identifier: renaming a
+        # temporary in the source leaves the generated file — and the proofs that refer to it — unchanged
+        for pos, (vid, name, text) in enumerate(bt.lets):
+            out.append(f"def {kind}_v{pos}{arg} : Ex := {text}")
         for slot, text in bt.outs:
             out.append(f"def {kind}_g{slot}{arg} : Ex := {text}")
         app = " nExp" if kind == "repulsion" else ""
         out.append(f"def {kind}Grad{arg} : Prog where")
-        out.append("  lets := [" + ", ".join(f"({vid}, {kind}_{name}{app})" for vid, name, _ in bt.lets) + "]")
+        out.append("  lets := [" + ", ".join(f"({vid}, {kind}_v{pos}{app})" for pos, (vid, _, _) in enumerate(bt.lets)) + "]")
         out.append("  outs := [" + ", ".join(f"({slot}, {kind}_g{slot}{app})" for slot, _ in bt.outs) + "]")
         if bt.guard is not None:
             out.append(f"  guard := some {bt.guard}")
